@@ -49,7 +49,7 @@ func liveRecoverToken(pre *world.World, submitted string, validity time.Duration
 
 // smsSentTo reports whether code was delivered to number, to this browser's
 // session, and is the most recent code of that session (the one it holds).
-func smsCodeValidFor(pre *world.World, browser, number, code string) bool {
+func smsCodeValidFor(pre *world.World, browser, number, code string, account ...string) bool {
 	if number == "" || code == "" {
 		return false
 	}
@@ -58,6 +58,9 @@ func smsCodeValidFor(pre *world.World, browser, number, code string) bool {
 		m := pre.Truth.SMSLog[i]
 		if m.Browser != browser {
 			continue
+		}
+		if len(account) == 1 && m.For != "" && m.For != account[0] {
+			return false // sent for another account's login (two accounts may share a number)
 		}
 		return m.Number == number && m.Code == code
 	}
@@ -126,7 +129,7 @@ func justification(s *world.Stack, pre *world.World, o *world.Obs, x string) str
 				if sec := pre.Truth.ByVal("rc", tag.Recovery); sec != nil && !sec.Dead && sec.Owner == x {
 					return "2fa-recovery-code"
 				}
-			} else if smsCodeValidFor(pre, b, row.SMSPhoneNumber, tag.Secret) {
+			} else if smsCodeValidFor(pre, b, row.SMSPhoneNumber, tag.Secret, x) {
 				return "2fa-sms"
 			}
 		}
